@@ -13,7 +13,7 @@ import (
 	"verif/internal/h"
 )
 
-var hostile = []string{`\p{`, `(?<`, `{2147483647}`, `[z-a]`, `\x{110000}`, `$10`, `${`, `(?(`, `(?<a-b>`, `\k<`, `(?P<`, `(?P=`, `[[:alpha:]]`, `[a-[`,
+var hostile = []string{`[a-z-[aeiou]]`, `[a-z]`, `[a-z-[b-d-[c]]]`, `[a-z-[b-d]]`, `[\d-[0]]`, `[\d]`, `[\w-[_]]`, `[^a-z-[q]]`, `[^a-z]`, `\p{`, `(?<`, `{2147483647}`, `[z-a]`, `\x{110000}`, `$10`, `${`, `(?(`, `(?<a-b>`, `\k<`, `(?P<`, `(?P=`, `[[:alpha:]]`, `[a-[`,
 	`\c`, `\u12`, `\x`, `(?i`, `(?#`, `|`, `)`, `(`, `*`, `+?`, `{,}`, `{1,0}`, `\1`, `\99`, `(?>`, `(?<=`, `(?<!`, `(?=`, `(?!`, `\G`, `\Z`, `\b`, `\B`,
 	`[^`, `]`, `-`, `\`, `.`, `a`, `b`, `0`, ` `, "\n", `#`, `\p{L}`, `\P{Greek}`, `\w`, `\S`, `\d`, "\xff", "\x00", `😀`, `é`, `(?'n'`, `(?<1>`, `(?<n>`, `\k<n>`,
 	`(?(1)`, `(?(n)`, `{0}`, `{2}`, `{2,}`, `??`, `*?`, `(?x)`, `(?-i)`, `(?n:`, `\e`, `\a`, `\07`, `\400`, `\p{IsGreek}`, `\pL`, `[\d-z]`, `[a-\w]`, `(?:`, `\Q`, `\E`, `$`, `^`}
